@@ -133,7 +133,9 @@ CLAIMED.update({
              "gives the operators their primitive meaning and is pinned to 45 official vectors at every run (pin failure = tool error); "
              "local: byte-identity with try_encrypt and decryption of specification tokens (incl. arbitrary wire nonces); public: "
              "cross-verification both ways incl. s-negated ECDSA; footer segment iff non-empty - also on a core builder object re-used with "
-             "another / the empty footer (CoreObj histories, SegOK in CoreObjTrace).",
+             "another / the empty footer (CoreObj histories, SegOK in CoreObjTrace); every mint of every core-object call history is compared with "
+             "the specification's token for the values the object holds at that mint (SpecOK: byte-identical for local, signature over the "
+             "specification's signing input for public).",
         ref="5 C08", tech="TLA+ term model of the PASETO algorithms + term evaluator pinned to official vectors (differential)",
         note="Trusted base: the primitive crates shared with the library (no protocol code shared); the official vectors shipped in the "
              "repository's tests (v1.public has none: RSA-PSS is randomised); TLC only prints and sanity-checks the terms."),
